@@ -162,10 +162,11 @@ void SHA1::transform(const byte buf[64])
 
 void SHA1::update(const byte* data, int len)
 {
-	int j = count[0], i = 0;
-	if ((count[0] += (len << 3)) < j)
+	uint32_t j = count[0];
+	int i = 0;
+	if ((count[0] += ((uint32_t)len << 3)) < j)
 		count[1]++;
-	count[1] += (len >> 29);
+	count[1] += ((uint32_t)len >> 29);
 	j = (j >> 3) & 63;
 	if ((j + len) > 63)
 	{
